@@ -116,15 +116,15 @@ macro_rules! c02_sum {
         }
     };
 }
-//@ h=c02_sum_short props=C02,C08 cfgs=K1 tier=q t=900 | funcs: Short::{compare_with_config, compare, max_distance}, part compare() | bound: all pairs of values x 2 modes: distance == body + checksum + Q ratio (+ length) part distances; header parts == reference
+//@ h=c02_sum_short props=C02,C08 cfgs=K0,K2 tier=q t=900 | funcs: Short::{compare_with_config, compare, max_distance}, part compare() | bound: all pairs of values x 2 modes: distance == body + checksum + Q ratio (+ length) part distances; header parts == reference
 c02_sum!(c02_sum_short, Short, 1, 15, 288, 20);
-//@ h=c02_sum_normal props=C02,C08 cfgs=K1 tier=q t=1200 | funcs: Normal::{compare_with_config, compare, max_distance} | bound: all pairs x 2 modes
+//@ h=c02_sum_normal props=C02,C08 cfgs=K0 tier=q t=1200 | funcs: Normal::{compare_with_config, compare, max_distance} | bound: all pairs x 2 modes
 c02_sum!(c02_sum_normal, Normal, 1, 35, 768, 40);
-//@ h=c02_sum_normall props=C02,C08 cfgs=K1 tier=q t=1200 | funcs: NormalWithLongChecksum::{compare_with_config, compare, max_distance} | bound: all pairs x 2 modes
+//@ h=c02_sum_normall props=C02,C08 cfgs=K0 tier=q t=1200 | funcs: NormalWithLongChecksum::{compare_with_config, compare, max_distance} | bound: all pairs x 2 modes
 c02_sum!(c02_sum_normall, NormalWithLongChecksum, 3, 37, 768, 40);
-//@ h=c02_sum_long props=C02,C08 cfgs=K1 tier=q t=1800 | funcs: Long::{compare_with_config, compare, max_distance} | bound: all pairs x 2 modes
+//@ h=c02_sum_long props=C02,C08 cfgs=K0 tier=q t=1800 | funcs: Long::{compare_with_config, compare, max_distance} | bound: all pairs x 2 modes
 c02_sum!(c02_sum_long, Long, 1, 67, 1536, 72);
-//@ h=c02_sum_longl props=C02,C08 cfgs=K1 tier=q t=1800 | funcs: LongWithLongChecksum::{compare_with_config, compare, max_distance} | bound: all pairs x 2 modes
+//@ h=c02_sum_longl props=C02,C08 cfgs=K0 tier=q t=1800 | funcs: LongWithLongChecksum::{compare_with_config, compare, max_distance} | bound: all pairs x 2 modes
 c02_sum!(c02_sum_longl, LongWithLongChecksum, 3, 69, 1536, 72);
 
 // C08 directly on the public API
@@ -153,10 +153,12 @@ macro_rules! c08_direct {
         }
     };
 }
-//@ h=c08_direct_short props=C08 cfgs=K1 tier=q t=1800 | funcs: Short::{compare_with_config, max_distance} | bound: all pairs x 2 modes: d(a,a)=0, symmetric, <= max_distance, max attained (cover witness), d_Default=0 => equal
+//@ h=c08_direct_short props=C08 cfgs=K0 tier=q t=1800 | funcs: Short::{compare_with_config, max_distance} | bound: all pairs x 2 modes: d(a,a)=0, symmetric, <= max_distance, max attained (cover witness), d_Default=0 => equal
 c08_direct!(c08_direct_short, Short, 1, 15, 20);
-//@ h=c08_direct_normal props=C08 cfgs=K1 tier=t t=3000 | funcs: Normal::{compare_with_config, max_distance} | bound: all pairs x 2 modes
+//@ h=c08_direct_normal props=C08 cfgs=K0 tier=q t=1800 | funcs: Normal::{compare_with_config, max_distance} | bound: all pairs x 2 modes
 c08_direct!(c08_direct_normal, Normal, 1, 35, 40);
+//@ h=c08_direct_longl props=C08 cfgs=K0 tier=q t=2400 | funcs: LongWithLongChecksum::{compare_with_config, max_distance} | bound: all pairs x 2 modes
+c08_direct!(c08_direct_longl, LongWithLongChecksum, 3, 69, 72);
 
 macro_rules! c08_rel {
     ($name:ident, $ty:ty, $ck:literal, $n:literal, $unw:literal) => {
@@ -184,10 +186,12 @@ macro_rules! c08_rel {
         }
     };
 }
-//@ h=c08_rel_short props=C08 cfgs=K1 tier=q t=1800 | funcs: Short::{compare_with_config, clear_checksum} | bound: all pairs: d_Default == d_NoLength + length distance; d(clear a, clear b) == d - checksum distance
+//@ h=c08_rel_short props=C08 cfgs=K0 tier=q t=1800 | funcs: Short::{compare_with_config, clear_checksum} | bound: all pairs: d_Default == d_NoLength + length distance; d(clear a, clear b) == d - checksum distance
 c08_rel!(c08_rel_short, Short, 1, 15, 20);
-//@ h=c08_rel_normall props=C08 cfgs=K1 tier=t t=3000 | funcs: NormalWithLongChecksum::{compare_with_config, clear_checksum} | bound: all pairs
+//@ h=c08_rel_normall props=C08 cfgs=K0 tier=q t=1800 | funcs: NormalWithLongChecksum::{compare_with_config, clear_checksum} | bound: all pairs
 c08_rel!(c08_rel_normall, NormalWithLongChecksum, 3, 37, 40);
+//@ h=c08_rel_long props=C08 cfgs=K0 tier=q t=2400 | funcs: Long::{compare_with_config, clear_checksum} | bound: all pairs
+c08_rel!(c08_rel_long, Long, 1, 67, 72);
 
 // part-level facts that compose C08 for the larger variants (with c02_sum_*, k_* and c06_bin_*):
 // every part distance is symmetric, bounded by its MAX_DISTANCE, zero iff equal, and the maxima
